@@ -136,6 +136,18 @@ func runSecrets(c []string) string {
 		ds := dbSync.NewDbSyncer(node, 9320, semaphore.NewWeighted(1))
 		go ds.Sync()
 		time.Sleep(20 * time.Second)
+	case "tcluster":
+		// a cluster TARGET with no reachable start node: the restore path fails to open its connections and aborts
+		conf.Options.TargetType = "cluster"
+		done := make(chan struct{})
+		go func() {
+			run.VerifRestoreRDB(bufio.NewReader(bytes.NewReader(img)), []string{"127.0.0.1:1"}, int64(len(img)))
+			close(done)
+		}()
+		select {
+		case <-done:
+		case <-time.After(30 * time.Second):
+		}
 	case "restore":
 		run.VerifRestoreRDB(bufio.NewReader(bytes.NewReader(img)), []string{tgt.Addr()}, int64(len(img)))
 	case "dump":
